@@ -18,8 +18,8 @@
    so every statement below is about explicit-presence fields (C14 owns observer purity). *)
 From BP Require Import Base.Prelude Model.Types Model.Varint Model.Object Model.Eq Model.Encode Model.Decode.
 From BP Require Import Model.WellFormed Model.C06Obs Model.Canon.
-From BP Require Import Spec.Varint Spec.C06Wire.
-From BP Require Import Proofs.C06SpecP Proofs.C06EncP Proofs.C06PresP Proofs.C06WaysP Proofs.C06FinalP.
+From BP Require Import Spec.Varint Spec.C06Wire Spec.C06Zero.
+From BP Require Import Proofs.C06SpecP Proofs.C06EncP Proofs.C06PresP Proofs.C06WaysP Proofs.C06FinalP Proofs.C06ZeroP.
 
 (* bytes(m) is the concatenation of one contribution per field, in declaration order, then the unknown bytes;
    [here sc cur i x f] is the contribution of field i holding raw value x *)
@@ -64,6 +64,17 @@ Theorem C06_explicit_emit : forall sc cur i x f bs,
   starts_with_tag (fnum f) (base_wire_type (fty f)) bs.
 Proof. exact explicit_emit_here. Qed.
 Print Assumptions C06_explicit_emit.
+
+(* set to the ZERO of its scalar type (Spec/C06Zero.v: 0, false, "", b"", 0.0), a proto3-optional field or the selected
+   oneof member contributes exactly ONE complete record of the grammar: its tag, then the zero payload *)
+Theorem C06_explicit_zero_record : forall sc cur i x f h wt after rb,
+  1 <= fnum f < 2 ^ 29 -> fwraps f = None ->
+  (fgroup f = None /\ fopt f = true) \/ group_selects cur f i = Some true ->
+  zero_record (fty f) x = Some (wt, after, rb) ->
+  here sc cur i x f = Ok h ->
+  is_record (mkR (fnum f) wt 0 rb) h /\ wt = base_wire_type (fty f).
+Proof. exact explicit_zero_record. Qed.
+Print Assumptions C06_explicit_zero_record.
 
 (* way 1, constructor: whatever keyword arguments were given, if the field's attribute holds a value (and, for a oneof
    member, no later member of its group was given as well: the constructor lets the last one in declaration order win) *)
